@@ -162,6 +162,14 @@ class Exec:
         self._mod = env.bm if kind == "bat" else env.pm
         self._dp = _data_pipeline
         self._saved = (cm._CONNECTION_MANAGER, self._mod.ComponentPoolStatusTracker, _data_pipeline.new_battery_pool, _data_pipeline.new_pv_pool)  # pylint: disable=protected-access
+        try:
+            self._build(sys0, RecSender, RecRegistry, pdmod, PowerManagingActor, ReportRequest, Broadcast, SystemBounds, Proposal, ComponentCategory, InverterType)
+        except BaseException:
+            self.close()
+            raise
+
+    def _build(self, sys0, RecSender, RecRegistry, pdmod, PowerManagingActor, ReportRequest, Broadcast, SystemBounds, Proposal, ComponentCategory, InverterType) -> None:  # pylint: disable=too-many-arguments,too-many-locals
+        ex, env, kind, prio, cm, _data_pipeline = self, self.env, self.kind, self.prio, self._cm, self._dp
         cm._CONNECTION_MANAGER = _CM(self.api, _graph(env, kind, [frozenset({i}) for i in range(1, NI + 1)]))  # pylint: disable=protected-access
         self._mod.ComponentPoolStatusTracker = _Tracker
 
@@ -215,8 +223,8 @@ class Exec:
                 ex.running -= 1
 
         mgr.distribute_power = spy_distribute_power  # instance attribute: the actor calls it through the instance
-        if kind == "bat":
-            algo = mgr._distribution_algorithm  # pylint: disable=protected-access
+        algo = getattr(mgr, "_distribution_algorithm", None) if kind == "bat" else None  # enrichment: absent -> no "dist" lines
+        if algo is not None:
             orig_algo = algo.distribute_power
 
             def spy_algo(power, components):
@@ -513,14 +521,22 @@ SOCS = [[50.0, 50.0], [40.0, 60.0], [70.0, 35.0]]
 
 SCOPES = {
     "quick": dict(
-        mc=dict(kind="bat", alpha=ALPHA_SMALL, MaxProp=2, MaxComp=1, MaxTimeout=0, live=False),
-        hist=dict(alpha=ALPHA_SMALL, MaxProp=3, MaxComp=1, MaxTimeout=1, MaxDepth=13, limit=1600),
+        mc=[
+            dict(name="mc", kind="bat", alpha=ALPHA_SMALL, MaxProp=2, MaxComp=1, MaxTimeout=0, live=False),
+            dict(name="mc_live", kind="bat", alpha=ALPHA_SMALL, MaxProp=1, MaxComp=1, MaxTimeout=1, live=True),
+        ],
+        hist=dict(alpha=ALPHA_SMALL, MaxProp=3, MaxComp=1, MaxTimeout=1, MaxDepth=12, limit=1600),
         sim=dict(alpha=ALPHA, MaxProp=4, MaxComp=1, MaxTimeout=1, MaxDepth=60, num=1000),
     ),
     "thorough": dict(
-        mc=dict(kind="bat", alpha=ALPHA_SMALL, MaxProp=3, MaxComp=1, MaxTimeout=1, live=True),
-        hist=dict(alpha=ALPHA, MaxProp=3, MaxComp=1, MaxTimeout=1, MaxDepth=15, limit=40000),
-        sim=dict(alpha=ALPHA, MaxProp=4, MaxComp=2, MaxTimeout=2, MaxDepth=80, num=40000),
+        mc=[
+            dict(name="mc_bat", kind="bat", alpha=ALPHA, MaxProp=2, MaxComp=1, MaxTimeout=1, live=False),
+            dict(name="mc_pv", kind="pv", alpha=ALPHA, MaxProp=2, MaxComp=1, MaxTimeout=1, live=False),
+            dict(name="mc_3prop", kind="bat", alpha=ALPHA_SMALL, MaxProp=3, MaxComp=0, MaxTimeout=0, live=False),
+            dict(name="mc_live", kind="bat", alpha=ALPHA_SMALL, MaxProp=2, MaxComp=1, MaxTimeout=1, live=True),
+        ],
+        hist=dict(alpha=ALPHA, MaxProp=3, MaxComp=1, MaxTimeout=1, MaxDepth=14, limit=30000),
+        sim=dict(alpha=ALPHA, MaxProp=4, MaxComp=2, MaxTimeout=2, MaxDepth=80, num=30000),
     ),
 }
 
@@ -538,11 +554,11 @@ def _design(rep: Report, sc: dict, work: Path) -> None:
     """Design-level model checking of the composed specification, all interleavings (no history bound)."""
     consts = dict(BASE, **sc["alpha"][sc["kind"]], MaxDepth=0, Mode="mc", MaxProp=sc["MaxProp"], MaxComp=sc["MaxComp"], MaxTimeout=sc["MaxTimeout"])
     props = ["EventuallyQuiescent"] if sc["live"] else []
-    res = run_tlc("PowerPath", work / "mc", constants=consts, spec="PPFairSpec", view="PPView", invariants=MC_INV, properties=props,
+    res = run_tlc("PowerPath", work / sc["name"], constants=consts, spec="PPFairSpec", view="PPView", invariants=MC_INV, properties=props,
                   extra_defs=EXTRA_DEFS, timeout=6000, heap="6g")
-    rep.add_mc("mc", res, _printable(consts), MC_INV + props, mode="exhaustive, all interleavings" + (", liveness under weak fairness" if props else ""))
+    rep.add_mc(sc["name"], res, _printable(consts), MC_INV + props, mode="exhaustive, all interleavings" + (", liveness under weak fairness" if props else ""))
     if not res.ok:
-        rep.fail(f"{PROP}.MC." + "/".join(res.violated), dict(stage="mc", constants=_printable(consts)), res.counterexample[:3000])
+        rep.fail(f"{PROP}.MC." + "/".join(res.violated), dict(stage=sc["name"], constants=_printable(consts)), res.counterexample[:3000])
 
 
 def _witness(recs: list[dict]) -> dict:
@@ -695,7 +711,8 @@ def run(prop: str, tier: str) -> int:
         "virtual time only moves for API timeouts (5 s each, at most 2 per execution): proposals do not expire (C11 covers expiry)",
         "the distribution algorithms themselves are C01 / C02 / C15 / C17; the composed model only assumes set-points sum to the clamped request",
     ]
-    _design(rep, sc["mc"], work)
+    for d in sc["mc"]:
+        _design(rep, d, work)
     for kind in ("bat", "pv"):
         _stage(rep, f"hist_{kind}", kind, sc["hist"], work, simulate=False)
         _stage(rep, f"sim_{kind}", kind, sc["sim"], work, simulate=True)
